@@ -560,6 +560,22 @@ theorem grid_coords_rejects_iff (g : GridShape) (x y z : Int) :
   rw [← within_bounds_arr_iff]
   by_cases h : withinBoundsArr g.w g.h g.d x y z = true <;> simp [h, Res.isError]
 
+/-- a position object with `x`, `y`, `z` attributes on a grid: refused iff some coordinate is outside its axis;
+otherwise it denotes the same cell as the tuple of its coordinates -/
+theorem grid_object_rejects_iff (g : GridShape) (x y z : Int) :
+    ((VSpace.grid g).cellIndex (.obj x y z)).isError = true ↔
+      ¬((0 ≤ x ∧ x < g.w) ∧ (0 ≤ y ∧ y < g.h) ∧ (0 ≤ z ∧ z < g.d)) := by
+  simp only [VSpace.cellIndex]
+  rw [← within_bounds_obj_iff]
+  by_cases h : withinBoundsObj g.w g.h g.d x y z = true <;> simp [h, Res.isError]
+
+theorem grid_object_same_as_tuple (g : GridShape) (x y z : Int) :
+    (VSpace.grid g).cellIndex (.obj x y z) = (VSpace.grid g).cellIndex (.xyz x y z) := by
+  simp only [VSpace.cellIndex, pyCellIndexOfCoords]
+  have h : withinBoundsObj g.w g.h g.d x y z = withinBoundsArr g.w g.h g.d x y z := by
+    rw [Bool.eq_iff_iff, within_bounds_obj_iff, within_bounds_arr_iff]
+  rw [h]; rfl
+
 /-- node index of a graph: refused iff outside `[0, n)` -/
 theorem graph_rejects_iff (n : Nat) (p : Int) :
     ((VSpace.graph n).cellIndex (.num p)).isError = true ↔ p < 0 ∨ (n : Int) ≤ p := by
@@ -574,7 +590,7 @@ theorem graph_rejects_iff (n : Nat) (p : Int) :
 
 /-- a coordinate triple is never a node of a graph space -/
 theorem graph_coords_rejected (n : Nat) (x y z : Int) :
-    ((VSpace.graph n).cellIndex (.xyz x y z)).isError = true := rfl
+    ((VSpace.graph n).cellIndex (.xyz x y z)).isError = true ∧ ((VSpace.graph n).cellIndex (.obj x y z)).isError = true := ⟨rfl, rfl⟩
 
 /-- FULL STATEMENT (every positional accessor refuses a position outside the space):
     `(sp.cellIndex p).isError → (sp.accessorCheck a p).isError` for every accessor `a`.
@@ -680,17 +696,11 @@ theorem cell_index_in_range (sp : VSpace) (p : VPos) (i : Int) (h : sp.cellIndex
         simp only [graphNodeIndexBad, Bool.or_eq_true, decide_eq_true_eq] at hb
         simp [VSpace.size]; omega
     | xyz x y z => simp [VSpace.cellIndex] at h
+    | obj x y z => simp [VSpace.cellIndex] at h
   | grid g =>
     have hsz : gridSize g.w g.h g.d = (g.size : Int) := by simp [gridSize, GridShape.size]
-    cases p with
-    | num q =>
-      simp only [VSpace.cellIndex, pyCellIndexOfNum, hsz] at h
-      by_cases hb : withinBoundsNum (g.size : Int) q = true
-      · simp only [hb, ↓reduceIte, cellIndexNum, Except.ok.injEq] at h
-        subst h
-        simpa [VSpace.size] using (within_bounds_num_iff _ _).1 hb
-      · simp [hb] at h
-    | xyz x y z =>
+    have key : ∀ (x y z i : Int), (VSpace.grid g).cellIndex (.xyz x y z) = .ok i → 0 ≤ i ∧ i < ((VSpace.grid g).size : Int) := by
+      intro x y z i h
       simp only [VSpace.cellIndex, pyCellIndexOfCoords] at h
       by_cases hb : withinBoundsArr g.w g.h g.d x y z = true
       · simp only [hb, ↓reduceIte, Except.ok.injEq] at h
@@ -707,6 +717,16 @@ theorem cell_index_in_range (sp : VSpace) (p : VPos) (i : Int) (h : sp.cellIndex
         have e : (g.w : Int) * ((g.h : Int) * (g.d : Int)) = (g.w : Int) * g.h * g.d := by rw [Int.mul_assoc]
         omega
       · simp [hb] at h
+    cases p with
+    | num q =>
+      simp only [VSpace.cellIndex, pyCellIndexOfNum, hsz] at h
+      by_cases hb : withinBoundsNum (g.size : Int) q = true
+      · simp only [hb, ↓reduceIte, cellIndexNum, Except.ok.injEq] at h
+        subst h
+        simpa [VSpace.size] using (within_bounds_num_iff _ _).1 hb
+      · simp [hb] at h
+    | xyz x y z => exact key x y z i h
+    | obj x y z => exact key x y z i (grid_object_same_as_tuple g x y z ▸ h)
 
 /-- the flat index of an accepted (species, position) pair determines both: two accepted accesses with the
 same flat index name the same species index and the same cell -/
